@@ -38,6 +38,91 @@ def run(chk: Check, proj: Project) -> None:
     s3(chk, proj, w)
     s4(chk, proj, w)
     s5(chk, proj, w)
+    s6(chk, proj, w)
+
+
+def _twin_dump(f, amap) -> str:
+    import copy
+
+    c = copy.deepcopy(f)
+    for n in ast.walk(c):
+        if isinstance(n, ast.Constant) and isinstance(n.value, str):
+            v = n.value
+            for a, b in amap:
+                v = v.replace(a, b)
+            n.value = v
+        elif isinstance(n, ast.Attribute):
+            for a, b in amap:
+                if n.attr == a:
+                    n.attr = b
+        elif isinstance(n, ast.Name):
+            for a, b in amap:
+                n.id = n.id.replace(a, b) if a in n.id.split("_") else n.id
+        elif isinstance(n, ast.arg):
+            for a, b in amap:
+                n.arg = n.arg.replace(a, b) if a in n.arg.split("_") else n.arg
+        elif isinstance(n, (ast.FunctionDef,)):
+            n.name = "F"
+    for n in ast.walk(c):
+        if isinstance(n, ast.FunctionDef) and n.body and isinstance(n.body[0], ast.Expr) and isinstance(n.body[0].value, ast.Constant):
+            n.body = n.body[1:] or [ast.Pass()]
+    return ast.dump(c)
+
+
+def s6(chk: Check, proj: Project, w) -> None:
+    chk.rule("S6", "the js / css twin functions are identical up to the kind; more specific URL routes come first; the class hash is computed from the full import path")
+    dm = proj.mod("dependencies")
+    for a, b in (("cache_component_js", "cache_component_css"), ("cache_component_js_vars", "cache_component_css_vars")):
+        fa, fb = dm.func(a), dm.func(b)
+        da = _twin_dump(fa, [("js", "K"), ("JS", "K")])
+        db = _twin_dump(fb, [("css", "K"), ("CSS", "K")])
+        ok = da == db
+        where = dm.loc(fa)
+        if not ok:
+            # locate the first differing statement
+            for sa, sb in zip(ast.walk(fa), ast.walk(fb)):
+                if type(sa) is not type(sb) or (isinstance(sa, ast.Constant) and isinstance(sb, ast.Constant) and isinstance(sa.value, str) and sa.value.replace("js", "K") != str(sb.value).replace("css", "K")):
+                    where = dm.loc(sa) if hasattr(sa, "lineno") else where
+                    break
+        chk.ob("S6", f"dependencies:{a}~{b}:twins-agree", where, ok, f"{a} and {b} are the same code up to js <-> css" if ok else
+               f"{a} and {b} differ beyond the js/css kind (e.g. one of them tests or stores the OTHER kind): after a partial eviction the script of one kind is not re-cached although its URL is announced")
+    # route order
+    up = dm.global_value("urlpatterns")
+    routes = []
+    for c in ast.walk(up) if up is not None else []:
+        if isinstance(c, ast.Call) and last_attr(c.func) == "path" and c.args:
+            okr, route = proj.try_fold(dm, c.args[0])
+            if okr:
+                routes.append((route, c))
+    counts = [len(re.findall(r"<", r_)) for r_, _c in routes]
+    ok = counts == sorted(counts, reverse=True) and len(routes) >= 2
+    chk.ob("S6", "dependencies:urlpatterns:specific-routes-first", dm.loc(routes[0][1]) if routes else dm.loc(dm.tree), ok,
+           "routes with more converters precede routes with fewer (a `str` converter also matches dots)" if ok else
+           "a route with fewer converters precedes a more specific one: `<str:comp_cls_hash>` also matches dots, so `/cache/<hash>.<input_hash>.js` is captured by the two-part route as an unknown class hash and the announced URL answers 404")
+    mm, hf = proj.func("util.misc", "hash_comp_cls")
+    md = [c for c in calls(hf, "md5")]
+    ok = False
+    why = "md5() call not found"
+    if md and md[0].args:
+        a0 = md[0].args[0]
+        base = a0.func.value if isinstance(a0, ast.Call) and isinstance(a0.func, ast.Attribute) and a0.func.attr == "encode" else a0
+        if isinstance(base, ast.Name):
+            d = assignments(hf, base.id)
+            ok = len(d) == 1 and isinstance(d[0][1], ast.Call) and last_attr(d[0][1].func) == "get_import_path" and norm(d[0][1].args[0]) == params(hf)[0]
+            why = f"md5 input `{base.id}` = `{norm(d[0][1]) if d and d[0][1] is not None else '?'}`"
+        elif isinstance(base, ast.Call) and last_attr(base.func) == "get_import_path":
+            ok = True
+        else:
+            why = f"md5 input is `{short(base)}`"
+    chk.ob("S6", "util.misc:hash_comp_cls:hash-of-full-import-path", mm.loc(md[0]) if md else mm.loc(hf), ok,
+           "the hash is md5 of the unmodified import path of the class" if ok else
+           f"the class hash is not computed from the full, unmodified import path ({why}): classes whose names differ only in characters that are dropped/normalised share a hash, so one component's URL serves another component's code")
+    cm, cf = proj.func("component", "Component.__init_subclass__")
+    st = [x for x in stmts(cf) if isinstance(x, ast.Assign) and norm(x.targets[0]).endswith("._class_hash")]
+    ok = len(st) == 1 and st[0] in cf.body and norm(st[0].value) == f"hash_comp_cls({params(cf)[0]})"
+    chk.ob("S6", "component:__init_subclass__:own-hash-for-every-class", cm.loc(st[0]) if st else cm.loc(cf), ok,
+           "every class gets its own hash, unconditionally" if ok else
+           "the class hash is not assigned unconditionally for every subclass (e.g. skipped when an inherited `_class_hash` exists): a subclass shares its parent's hash, so their scripts collide and register() treats two different classes as the same one")
 
 
 def s1(chk: Check, proj: Project, w) -> None:
